@@ -71,14 +71,15 @@ def cases(tier, rng):
             for fl, body in scen.parse_frames_prefix(s[64:]):
                 pos += (9 if fl & 2 else 2) + len(body)
                 bounds.append(pos)
-            near = sorted(set(b + d for b in bounds for d in (-9, -1, 0, 1, 2, 3, 9, 10) if 0 < b + d < len(s)))
+            huge = len(s) > 1000000       # (megabyte streams: the extracted model needs seconds per case - fewer of them)
+            near = sorted(set(b + d for b in bounds for d in ((-1, 0, 1, 9) if huge else (-9, -1, 0, 1, 2, 3, 9, 10)) if 0 < b + d < len(s)))
             for c in near:
                 add([c])
-            for _ in range(20 if tier == "quick" else 200):
+            for _ in range((4 if huge else 20) if tier == "quick" else (20 if huge else 200)):
                 add(sorted(rng.sample(near, 2)))
-            for size in (8192, 65536, 16384, 100000):
+            for size in ((8192, 100000) if huge else (8192, 65536, 16384, 100000)):
                 add(list(range(size, len(s), size)))
-            for _ in range(10 if tier == "quick" else 100):
+            for _ in range((3 if huge else 10) if tier == "quick" else (10 if huge else 100)):
                 add(rng.sample(range(1, len(s)), rng.randint(1, 6)), eof=rng.random() < 0.2)
             continue
         step = 1 if len(s) <= 400 else max(1, len(s) // 300)
@@ -175,6 +176,11 @@ HANDOVER = {"PULL": "r=ok:6669727374", "DEALER": "r=ok:6669727374", "ROUTER": "r
 
 
 def compare_filter(line):
+    # megabyte streams: the extracted model takes ~10 s per case on them; they are read declaratively ONCE (oracle_cases) and
+    # every segmentation of the implementation is judged against that reading and against the other segmentations
+    import re
+    if any(int(n) >= 500000 for n in re.findall(r"r(\d+)\.", line)):
+        return False
     return line.split()[1] == "dec"
 
 
